@@ -240,20 +240,26 @@ def fam_evaluator(sess):
                                     return None
                             return (not v) if op in ('Ne', 'NotRx', 'NotLike', 'Ene') else v
                         t2 = E.OP_TEXT[second]
-                        argv = ['name', 'from', '.', 'where']
-                        if first:
-                            argv += ['name', E.OP_TEXT[first], "'%s'" % pat, 'or']
-                        argv += ['name', t2, "'%s'" % pat]
-                        r_ = common.run_cli(exe, argv, tree)
-                        got = sorted(r_['stdout'].split('\n')[:-1])
-                        want = []
-                        for n in names:
-                            tv = truth(second, n); fv = truth(first, n) if first else False
-                            if tv is None or fv is None:
-                                return False, 'pattern %r is not a valid regular expression: no textbook verdict' % pat
-                            if tv or fv:
-                                want.append(n)
-                        return got != sorted(want) or r_['status'] != 0, 'fselect %s -> %r ; textbook %r (status %s %s)' % (' '.join(argv[4:]), got, sorted(want), r_['status'], r_['stderr'][:100])
+                        last = ''
+                        # the earlier evaluation fills the cache; `or` hides the later verdict where the earlier one is true, `and` where it is false: try both
+                        for conn in (('or', 'and') if first else ('',)):
+                            argv = ['name', 'from', '.', 'where']
+                            if first:
+                                argv += ['name', E.OP_TEXT[first], "'%s'" % pat, conn]
+                            argv += ['name', t2, "'%s'" % pat]
+                            r_ = common.run_cli(exe, argv, tree)
+                            got = sorted(r_['stdout'].split('\n')[:-1])
+                            want = []
+                            for n in names:
+                                tv = truth(second, n); fv = truth(first, n) if first else (conn == 'and')
+                                if tv is None or fv is None:
+                                    return False, 'pattern %r is not a valid regular expression: no textbook verdict' % pat
+                                if (tv and fv) if conn == 'and' else (tv or fv):
+                                    want.append(n)
+                            last = 'fselect %s -> %r ; textbook %r (status %s %s)' % (' '.join(argv[4:]), got, sorted(want), r_['status'], r_['stderr'][:100])
+                            if got != sorted(want) or r_['status'] != 0:
+                                return True, last
+                        return False, last
                     sess.violated(name, role, 'the decision is not the documented one for this operator', {'pattern': pat, 'first': first, 'second': second}, rep, fam)
                 ex.explore(run, on_path)
     if not viol:
